@@ -21,6 +21,7 @@ constexpr auto copy_n(InputIt first, Size count, OutputIt result) -> OutputIt
         for (Size i = 1; i < count; ++i) {
             *(++result) = *(++first);
         }
+        ++result;
     }
     return result;
 }
